@@ -231,8 +231,11 @@ def resolve( path, attribute=False ):
 
     result			= { 'class': None, 'instance': None, 'attribute': None }
     tag				= u'' # developing ISO-8859-1 symbolic tag "Symbol.Subsymbol"
+    found			= u'' # the Tag resolved by the symbolic term(s) just before this one
 
     for term in path['segment']:
+        if 'symbolic' not in term:
+            found		= u'' # only directly adjacent symbolic terms spell one dotted name
         if ( 'symbolic' not in term			# A symbolic term names a Tag: resolve it, or fail
              and result['class'] is not None		# Got Class already
              and result['instance'] is not None		# Got Instance already
@@ -265,6 +268,10 @@ def resolve( path, attribute=False ):
                     ( "Unrecognized symbolic name %r found in path %r" % ( tag, path['segment'] )
                       if tag
                       else "Invalid term %r found in path %r" % ( working, path['segment'] ))
+                if found and not tag and canonicalize_tag( found + u'.' + working['symbolic'] ) in symbol:
+                    # Tags "A" and "A.B" both exist: the longer name is the Tag addressed
+                    tag		= found
+                    result	= dict.fromkeys( result )
                 if tag:
                     tag	       += u'.'
                 tag	       += working['symbolic']
@@ -272,7 +279,7 @@ def resolve( path, attribute=False ):
                 tag_canonical	= canonicalize_tag( tag )
                 if tag_canonical in symbol:
                     working	= dict( symbol[tag_canonical] )
-                    tag		= ''
+                    found,tag	= tag,''
 
     # Any tag not recognized will remain after all resolution complete
     assert not tag, \
